@@ -327,6 +327,15 @@ def run(ctx):
     ctx.cov['correspondence']['corr-S totality'] = {'outcomes': stats, 'new_crash_sites': len(sites),
                                                     'input_classes': {'near_valid_templates': len(NEAR_VALID), 'token_mutants': n_mut}}
     ctx.sample({'mutant': cases[len(NEAR_VALID) * 4 + 3][1][:300] if len(cases) > len(NEAR_VALID) * 4 + 3 else ''})
+    # a watchdog expiry is confirmed alone with a 10 times longer limit before it is called a hang (the
+    # machine may be loaded: a compilation that merely waited for a core is not a violation)
+    for sk in [k for k in sites if k[0] == 'hang']:
+        v = sites[sk]
+        src = v['input'].encode('utf-8', 'replace') if isinstance(v['input'], str) else v['input']
+        r2 = run_ccv(compile_job('confirm', src, args=v['options'], want=[]), profile=v['build'], timeout_ms=40000, tag='totc')[0]
+        if r2.get('status') != 'hang':
+            del sites[sk]
+            stats['slow-not-hang'] = stats.get('slow-not-hang', 0) + 1
     for sk, v in list(sites.items())[:5]:
         ctx.violation('crash', v)
     ctx.cov['rule'] = ('near-valid templates x option sets; token-level mutants (delete/duplicate/replace/retype/insert/swap one token, '
